@@ -253,3 +253,27 @@ $a = comdat largest
 define void @f() comdat($"") {
   ret void
 }
+;;; ATOM global/alias-of-addrspacecast-across-address-spaces
+@g = addrspace(1) global i32 0
+@h = global i32 1
+@e = alias i32, i32* addrspacecast (i32 addrspace(1)* @g to i32*)
+@e2 = alias i32, i32 addrspace(2)* addrspacecast (i32* @h to i32 addrspace(2)*)
+@e4 = weak alias i8, i8 addrspace(1)* bitcast (i32 addrspace(1)* @g to i8 addrspace(1)*)
+@uses = global [2 x i32*] [i32* @e, i32* @e]
+
+define i32 @f() {
+  %a = load i32, i32* @e
+  %b = load i32, i32 addrspace(2)* @e2
+  %d = load i8, i8 addrspace(1)* @e4
+  store i32 %a, i32 addrspace(2)* @e2
+  ret i32 %b
+}
+;;; ATOM global/alias-of-addrspacecast-across-address-spaces-untyped
+@g = addrspace(1) global i32 0
+@e3 = alias i32, addrspacecast (i32 addrspace(1)* @g to i32 addrspace(3)*)
+@uses3 = global i32 addrspace(3)* @e3
+
+define i32 @f() {
+  %c = load i32, i32 addrspace(3)* @e3
+  ret i32 %c
+}
